@@ -10,7 +10,7 @@ from .common import gen_knobs, pick
 from .framing import delivered_equals_complete
 from .hist import Index
 
-TYPE_IDS = [1, 2, 26, 127, 128, 129, 255, 300, 16383, 16384, 2**21 - 1, 2**21, 2**28, 2**32, 2**35 + 7]
+TYPE_IDS = [0, 1, 2, 26, 127, 128, 129, 255, 300, 16383, 16384, 2**21 - 1, 2**21, 2**28, 2**32, 2**35 + 7]
 LENS = [0, 0, 1, 2, 5, 30, 126, 127, 128, 129, 300, 1000, 16383, 16384, 16385, 40000, 70000]
 
 
